@@ -32,7 +32,7 @@ import time
 VERIF = os.path.dirname(os.path.dirname(os.path.abspath(__file__)))
 REPO = os.environ.get("VERIF_REPO", "/repo")
 TLA_CP = "/opt/veriftools/tla/tla2tools.jar:/opt/veriftools/tla/CommunityModules-deps.jar"
-NCPU = os.cpu_count() or 4
+NCPU = int(os.environ.get("VERIF_WORKERS") or 0) or (os.cpu_count() or 4)
 GOENV = dict(GOFLAGS="-mod=mod", GOPROXY="off", GOSUMDB="off", GOTOOLCHAIN="local")
 
 
@@ -392,7 +392,7 @@ class Ctx(object):
               "violations": len({v["sig"] for v in new})}
         if rc == 2:
             ev["coverage"]["broken"] = [b[:500] for b in self.broken]
-        edir = os.path.join(VERIF, "evidence")
+        edir = os.path.join(VERIF, "evidence") if REPO == "/repo" else os.path.join(VERIF, "out", "evidence-alt")
         os.makedirs(edir, exist_ok=True)
         with open(os.path.join(edir, self.prop + ".json"), "w") as f:
             json.dump(ev, f, indent=1, default=str)
